@@ -148,6 +148,11 @@ where
     for t in 0..case.steps {
         let Some(it) = sampler.next() else {
             info.class("converged-early");
+            // a converged sampler stays converged and keeps a consistent state
+            if sampler.next().is_some() {
+                return Err(Failure::new("sampler:not-fused", format!("step {}: next() returned an iteration after None", t)));
+            }
+            state_check(&sampler, "after convergence", info)?;
             break;
         };
         let at = format!("step {}", t);
